@@ -22,8 +22,8 @@ class Dims:
         self.env = {}
         self.report = report
         self.n = 0
-        for p in fn.params if hasattr(fn, 'params') else []:
-            pass
+        self.depth = 0
+        self.returns = []
         self.seeds = dict(seeds)
 
     def var(self, e):
@@ -45,6 +45,8 @@ class Dims:
         if k == 'DeclRefExpr':
             return self.var(e)
         if k == 'MemberExpr':
+            if not e.n:
+                return self.dim(e.child('base'))      # anonymous struct/union member: transparent
             if e.n in ('x', 'y', 'u', 'v', 'items'):
                 return self.dim(e.child('base'))
             if e.n in ('count', 'capacity'):
@@ -106,8 +108,20 @@ class Dims:
             return None
         if k == 'CallExpr':
             spec = CALL_DIMS.get(e.callee)
-            for a in e.args:
-                self.dim(a)
+            ads = [self.dim(a) for a in e.args]
+            if spec is None and e.callee and self.depth < 3:
+                # a file-local helper: analysed with its parameters carrying the dimensions of the arguments (so a block
+                # moved into a helper is still checked, and counted, at every call site)
+                db = getattr(self.fn, 'db', None)
+                gs = [g for g in (db.by_qn.get(e.callee, []) if db is not None else []) if g.body is not None and g.rec is None and g.file == self.fn.file
+                      and g.linkage in ('static', 'inline') and len(g.params) == len(e.args)]
+                if len(gs) == 1:
+                    sub = Dims(gs[0], {p['n']: d for p, d in zip(gs[0].params, ads) if d not in (None, ANY)}, self.report)
+                    sub.depth = self.depth + 1
+                    sub.run()
+                    self.n += sub.n
+                    rs = [d for d in sub.returns if d is not None]
+                    return rs[0] if rs and all(r == rs[0] for r in rs) else None
             if spec == 'same':
                 return self.dim(e.args[0])
             if spec == 'half':
@@ -195,7 +209,9 @@ class Dims:
             elif s.k in ('IfStmt', 'WhileStmt', 'ForStmt', 'DoStmt') and s.child('cond') is not None:
                 self.dim(s.child('cond'))
             elif s.k == 'ReturnStmt' and s.child('value') is not None:
-                self.dim(s.child('value'))
+                self.returns.append(self.dim(s.child('value')))
+            elif s.k == 'CallExpr' and s.parent is not None and s.parent.k in ('CompoundStmt', 'IfStmt', 'ForStmt', 'WhileStmt', 'DoStmt', 'CaseStmt', 'DefaultStmt'):
+                self.dim(s)          # a call statement: a file-local helper is analysed with the arguments' dimensions
         return self.n
 
 
